@@ -74,13 +74,15 @@ fn gen_watch_op(rng: &mut Rng, sc: &Scenario, targets: &[Tid], n: u64) -> Option
     let (path, in_dir, _ext) = rng.pick(&files).clone();
     let dir = path.rsplit_once('/').map(|x| x.0.to_string()).unwrap_or_default();
     Some(if !in_dir {
-        match rng.weighted(&[70, 15, 15]) {
+        match rng.weighted(&[60, 15, 15, 10]) {
+            3 => FsOp::WriteMmap { path, content: format!("mmap#{}", n) },
             0 => FsOp::Write { path, content: format!("watch edit #{}\n", n) },
             1 => FsOp::Append { path, content: format!("+{}", n) },
             _ => FsOp::Touch { path },
         }
     } else {
-        match rng.weighted(&[45, 10, 10, 15, 10, 10]) {
+        match rng.weighted(&[40, 10, 10, 15, 10, 10, 8]) {
+            6 => FsOp::WriteMmap { path, content: format!("mmap#{}", n) },
             0 => FsOp::Write { path, content: format!("watch edit #{}\n", n) },
             1 => FsOp::Append { path, content: format!("+{}", n) },
             2 => FsOp::Touch { path },
@@ -577,8 +579,30 @@ pub fn oracle_c01b(sc: &Scenario, r: &RunResult) -> Option<Violation> {
             "send" if e.rest.contains("msg:Ok{") => {
                 // an aggregate acknowledges on behalf of its dependencies: it must not say Ok
                 // for a kind while one of them last said Invalidated for that kind
-                if model::kind_of(sc, &t) == Some(Kind::Aggregate) {
-                    let kind = e.rest.split("msg:Ok{kind:").nth(1).and_then(|x| x.split(',').next()).unwrap_or("").to_string();
+                let own_kind = model::kind_of(sc, &t);
+                let kind_s = e.rest.split("msg:Ok{kind:").nth(1).and_then(|x| x.split(',').next()).unwrap_or("").to_string();
+                let names_self = e.rest.split("msg:Ok{").nth(1).map(|b| {
+                    let tn = b.split("target_name:\"").nth(1).and_then(|x| x.split('"').next()).unwrap_or("");
+                    tn == t.1
+                }).unwrap_or(false);
+                let real_ack = e.rest.contains("actual:true")
+                    && ((own_kind == Some(Kind::Build) && kind_s == "Build") || (own_kind == Some(Kind::Service) && kind_s == "Service"));
+                if names_self && real_ack {
+                    // a build / service announcing its own readiness: none of its dependencies may
+                    // have "out of date" as its latest word (the announcement would be stale)
+                    // (a build does not treat a restarting *service* dependency as making its
+                    // own finished output stale — by design, see the TODO in build_target_actor —
+                    // so only Build-kind notices count for builds)
+                    if let Some(((dep, k), _)) = s.invalid.iter().find(|((_, k), _)| own_kind == Some(Kind::Service) || k == "Build") {
+                        return viol(
+                            "ready-announced-while-dependency-out-of-date",
+                            format!("target={} dep={} dep-kind={}", sc.display(t.0, &t.1), dep, k),
+                            format!("{} told its requesters Ok{{{}}} (seq {}) although the latest word it had received from its dependency {} was Invalidated{{{}}}: the result it announces was built from an out-of-date dependency", sc.display(t.0, &t.1), kind_s, e.seq, dep, k),
+                        );
+                    }
+                }
+                if own_kind == Some(Kind::Aggregate) {
+                    let kind = kind_s.clone();
                     if let Some(((dep, k), _)) = s.invalid.iter().find(|((_, k), _)| *k == kind) {
                         return viol(
                             "aggregate-ready-while-dependency-out-of-date",
@@ -798,7 +822,7 @@ fn relevant_to(sc: &Scenario, t: &Tid, path: &str) -> bool {
 
 fn op_paths(op: &FsOp) -> Vec<String> {
     match op {
-        FsOp::Write { path, .. } | FsOp::Append { path, .. } | FsOp::Touch { path } | FsOp::WriteKeepMtime { path, .. } | FsOp::WriteOlder { path, .. } | FsOp::Create { path, .. } | FsOp::Delete { path } => vec![path.clone()],
+        FsOp::Write { path, .. } | FsOp::Append { path, .. } | FsOp::Touch { path } | FsOp::WriteKeepMtime { path, .. } | FsOp::WriteOlder { path, .. } | FsOp::WriteMmap { path, .. } | FsOp::Create { path, .. } | FsOp::Delete { path } => vec![path.clone()],
         FsOp::Rename { from, to } => vec![from.clone(), to.clone()],
         FsOp::SetVar { .. } => vec![],
     }
@@ -849,6 +873,11 @@ impl Property for C16 {
                 // the same directory declared twice with different filters
                 t.input.push(Res::Paths { paths: vec![d.clone()], extensions: Some(vec!["c".to_string()]) });
                 t.input.push(Res::Paths { paths: vec![d], extensions: Some(vec![".h".to_string()]) });
+            } else if rng.chance(30) {
+                // paths that do not exist when watching begins, listed beside the one that does
+                let mut paths = vec![format!("gen/{}-a", name), d, format!("gen/{}-b", name), format!("gen/{}-c", name)];
+                rng.shuffle(&mut paths);
+                t.input.push(Res::Paths { paths, extensions: ext });
             } else {
                 t.input.push(Res::Paths { paths: vec![d], extensions: ext });
             }
@@ -910,7 +939,11 @@ impl Property for C16 {
                 }
                 4 => {
                     let f = rng.pick(&existing).clone();
-                    FsOp::Write { path: f, content: format!("relevant edit {}\n", b) }
+                    if rng.chance(20) {
+                        FsOp::WriteMmap { path: f, content: format!("m{}", b) }
+                    } else {
+                        FsOp::Write { path: f, content: format!("relevant edit {}\n", b) }
+                    }
                 }
                 5 => {
                     if created.is_empty() {
